@@ -221,6 +221,16 @@ func checkC19(r *core.Run, p *core.Program) {
 						return true
 					}
 					rt := recvType(cal)
+					// big.Float setters on a receiver whose precision was fixed by big.NewFloat (53 bits): the value is rounded silently
+					if rt != nil && typeIs(rt, "math/big", "Float") && (cal.Name() == "SetInt" || cal.Name() == "SetRat" || cal.Name() == "SetInt64" || cal.Name() == "SetUint64" || cal.Name() == "Set") {
+						if sel, ok := x.Fun.(*ast.SelectorExpr); ok && len(x.Args) == 1 && mentionsDerived(x.Args[0]) {
+							if rc, ok := stripParens(sel.X).(*ast.CallExpr); ok {
+								if c2 := callee(info, rc); c2 != nil && isFunc(c2, "math/big", "NewFloat") {
+									report(x, "big.Float."+cal.Name()+" into a float created by big.NewFloat (fixed 53-bit precision)", nil, nil)
+								}
+							}
+						}
+					}
 					switch {
 					case rt != nil && typeIs(rt, "reflect", "Value") && (cal.Name() == "SetInt" || cal.Name() == "SetUint" || cal.Name() == "SetFloat") && len(x.Args) == 1 && mentionsDerived(x.Args[0]):
 						// setFloatFromFloat stores a float into a float (float->float rounding is outside the property)
@@ -260,6 +270,67 @@ func checkC19(r *core.Run, p *core.Program) {
 		}
 	}
 	r.Floor("C19.lossy-op", "value-changing operations on input data", nOps, 20)
+
+	// ---- decimal sign: the coefficient of an apd.Decimal is a magnitude; the sign lives in .Negative
+	r.Rule("C19.decimal-sign", "every conversion that reads the coefficient (.Coeff) of a big decimal also reads its sign flag (.Negative) or a sign accessor: the coefficient alone is the magnitude, so a conversion that ignores the flag stores -5 as 5.")
+	nCoeff := 0
+	for _, rel := range []string{"builder", "conversions"} {
+		pkg := p.Pkg(rel)
+		info := pkg.TypesInfo
+		for _, f := range funcsOf(pkg) {
+			readsCoeff, readsSign := false, false
+			var pos token.Pos
+			ast.Inspect(f.Decl.Body, func(n ast.Node) bool {
+				switch x := n.(type) {
+				case *ast.SelectorExpr:
+					if fv := fieldOf(info, x); fv != nil && typeIs(info.TypeOf(x.X), "github.com/cockroachdb/apd/v2", "Decimal") {
+						switch fv.Name() {
+						case "Coeff":
+							// writing the coefficient (composite literal key / assignment target) is not a read
+							readsCoeff = true
+							pos = x.Pos()
+						case "Negative":
+							readsSign = true
+						}
+					}
+				case *ast.CallExpr:
+					if c := callee(info, x); c != nil && typeIs(recvType(c), "github.com/cockroachdb/apd/v2", "Decimal") && (c.Name() == "Sign" || c.Name() == "Neg" || c.Name() == "Abs" || c.Name() == "Cmp") {
+						readsSign = true
+					}
+				}
+				return true
+			})
+			if !readsCoeff {
+				continue
+			}
+			nCoeff++
+			r.Check("C19.decimal-sign", f.Name()+"|reads the sign with the coefficient", pos, readsSign,
+				"the function uses the decimal's coefficient but never looks at its sign flag: a negative value is converted as if it were positive")
+		}
+	}
+	r.Floor("C19.decimal-sign", "conversions that read a decimal coefficient", nCoeff, 1)
+
+	// ---- integer destinations must not be reached through a rounding binary float
+	r.Rule("C19.no-float-detour", "a conversion from a decimal source to an integer destination (…ToInt, …ToUint, …ToBigInt) never goes through a binary big.Float built with a finite precision (big.ParseFloat with a precision, big.NewFloat, SetPrec): the float silently rounds, and the later exactness test only sees the rounded value.")
+	nDet := 0
+	for _, f := range funcsOf(p.Pkg("conversions")) {
+		name := f.Obj.Name()
+		if !(strings.Contains(name, "DecimalFloatTo") && (strings.HasSuffix(name, "ToInt") || strings.HasSuffix(name, "ToUint") || strings.HasSuffix(name, "ToBigInt"))) {
+			continue
+		}
+		nDet++
+		via := ""
+		a.reaches(f.Obj, func(g *types.Func) bool {
+			if g.Pkg() != nil && g.Pkg().Path() == "math/big" && (g.Name() == "ParseFloat" || g.Name() == "NewFloat" || g.Name() == "SetPrec") {
+				via = "math/big." + g.Name()
+				return true
+			}
+			return false
+		})
+		r.Check("C19.no-float-detour", "conversions."+name+"|stays in exact arithmetic", f.Decl.Pos(), via == "",
+			"this decimal-to-integer conversion reaches "+via+": the value is rounded to the float's precision before the integer is taken, so e.g. 1e19 is stored as 10376293541461622784 without an error")
+	}
+	r.Floor("C19.no-float-detour", "decimal-to-integer conversions", nDet, 3)
 
 	// ---- sign obligation
 	iface := p.LookupType("ce/events", "DataEventReceiver")
